@@ -131,8 +131,9 @@ print("CONFIRMED" if bad else "NOT-CONFIRMED")
 """
 
 
-def _times(chk):
-    """_propagate_dynsys(...).times == forward * linspace(t0, tf, steps) for every method"""
+def _times(chk, only=None):
+    """_propagate_dynsys(...).times == forward * linspace(t0, tf, steps) for every method
+    `only`: iterable of (method, forward) pairs to register (C12 shares the backward fixed / adaptive ones)"""
     import hiten.algorithms.dynamics.base as base
     import hiten.algorithms.integrators.rk as rk
     import hiten.algorithms.integrators.symplectic as sym
@@ -210,6 +211,9 @@ def _times(chk):
 
     for method in ("fixed", "adaptive", "symplectic"):
         for forward in (1, -1):
+            if only is not None and (method, forward) not in only:
+                continue
+
             def th(method=method, forward=forward):
                 sol, rec = run(method, forward)
                 want = forward * _np.linspace(0.0, 1.5, 4)
@@ -238,7 +242,7 @@ def _times(chk):
                                       f"f_dir(0.25, {yt.tolist()}) = {got.tolist()}, want {want_f.tolist()}",
                                       replay=_REPLAY_NONAUT, inputs={"method": method, "forward": forward})
             chk.obl(f"_propagate_dynsys(method={method}, forward={forward:+d}): times == forward*linspace(t0,tf,steps); "
-                    f"driver grid as documented", "K2 wiring (real _propagate_dynsys + real integrate(), drivers recorded)",
+                    f"driver grid as documented; the driver integrates the DIRECTED field forward*f(forward*s, y)", "K2 wiring (real _propagate_dynsys + real integrate(), drivers recorded)",
                     [BA + ":_propagate_dynsys", RK + ":_FixedStepRK.integrate", RK + ":_DOP853.integrate",
                      SY + ":_ExtendedSymplectic.integrate"], "B4 exact evaluation", th)
 
@@ -669,6 +673,11 @@ def run(chk):
     _directed(chk)
     _times(chk)
     _zero_span(chk)
+    # "samples are returned exactly at the requested times": the fixed-step driver on a symbolic NON-UNIFORM grid (shared
+    # with C02: same real driver, same obligation)
+    from contracts import C02
+    chk.under_contract(RK + ":_FixedStepRK._integrate_fixed_rk")
+    C02._kernels(chk, only="_integrate_fixed_rk: states[0]==y0")
     _grid_direction(chk)
     _stepping_loop(chk, "rk45")
     _stepping_loop(chk, "dop853")
